@@ -76,9 +76,22 @@ def install(world):
             return it.call(r, [], {}, node)
         if isinstance(x, SVal):
             world.trusted_used.add('len(opaque)')
+            # a class object has no len()
+            if not it.spec and it.branch(isinst_fn('type')(x.t)):
+                it.raise_('TypeError', 'object of type type has no len()',
+                          node=node)
             return SInt(uf('py_len', S.Val, z3.IntSort())(x.t))
         raise Unsupported('len of %r' % (x,))
     reg('len', b_len, True)
+
+    def b_issubclass(it, node, a, b):
+        if isinstance(a, SVal) and isinstance(b, SVal):
+            world.trusted_used.add('issubclass(opaque, opaque) '
+                                   'uninterpreted')
+            return SBool(uf('py.issubclass', S.Val, S.Val, z3.BoolSort())(
+                a.t, b.t))
+        raise Unsupported('issubclass(%r, %r)' % (a, b))
+    reg('issubclass', b_issubclass, True)
 
     def b_isinstance(it, node, x, cls):
         classes = cls if isinstance(cls, tuple) else (cls,)
